@@ -14,6 +14,8 @@ def facts(m):
             segs=[dict(p1=[hx(v) for v in s.p1], p2=[hx(v) for v in s.p2], len=hx(s.seg_len),
                        dir=[hx(v) for v in s.dirvec]) for s in g.segments],
             p1=[hx(v) for v in ep[0]], p2=[hx(v) for v in ep[1]],
+            # the ends of the conductor as it is segmented (first / last segment end): what the junctions are about
+            sp1=[hx(v) for v in g.segments[0].p1], sp2=[hx(v) for v in g.segments[-1].p2],
             gnd=[bool(g.is_ground[0]), bool(g.is_ground[1])],
             end_segs=[None if e is None else int(e) for e in g.end_segs],
             pulses=[int(p.idx) for p in g.pulses],
